@@ -5,7 +5,8 @@ KEYS = ["a", "b", "c", "name", "id", "k1", "x y", "a.b"]
 STRS = ["a", "ab", "b", "x", "zz", "1", "true", "Hello"]
 
 
-def rand_doc(rng, max_nodes=25, max_depth=4):
+def rand_doc(rng, max_nodes=25, max_depth=4, anchor_names=None, anchor_p=0.1, alias_p=0.15):
+    """anchor_names: None = at most one anchor "A" (the default corpus); else the pool of names, each defined at most once."""
     doc = []
     budget = [rng.randint(3, max_nodes)]
     anchors = []
@@ -28,7 +29,7 @@ def rand_doc(rng, max_nodes=25, max_depth=4):
         budget[0] -= 1
         r = rng.random()
         if in_set or depth >= max_depth or budget[0] <= 0 or r < 0.45:
-            if not in_set and anchors and rng.random() < 0.15:
+            if not in_set and anchors and rng.random() < alias_p:
                 tgt = rng.choice(anchors)
                 n = dict(doc[tgt - 1])
                 n.update({"par": par, "alias": tgt, "kids": [], "keys": []})
@@ -36,8 +37,10 @@ def rand_doc(rng, max_nodes=25, max_depth=4):
                 n = scalar(par)
                 if in_set:
                     n["t"], n["v"] = "str", rng.choice(STRS)
-                elif n["t"] == "str" and not anchors and rng.random() < 0.1:   # (ruamel drops the anchor of a 0 / false scalar)
+                elif anchor_names is None and n["t"] == "str" and not anchors and rng.random() < 0.1:   # (ruamel drops the anchor of a 0 / false scalar)
                     n["anchor"] = "A"
+                elif anchor_names is not None and n["t"] == "str" and len(anchors) < len(anchor_names) and rng.random() < anchor_p:
+                    n["anchor"] = [a for a in anchor_names if a not in {doc[x - 1]["anchor"] for x in anchors}][0]
             doc.append(n)
             if n["anchor"] and not n["alias"]:
                 anchors.append(len(doc))
